@@ -161,9 +161,20 @@ func (c *connection) Skip(n int) (err error) {
 
 // Release implements Connection.
 func (c *connection) Release() (err error) {
+	if !c.IsActive() {
+		// Closed: the buffers may have been recycled, and the poller slot behind
+		// c.operator may belong to another connection by now. Its token is not ours
+		// to take (taking it made that connection deaf and its Close spin for ever).
+		return c.inputBuffer.Release()
+	}
 	// Check inputBuffer length first to reduce contention in mux situation.
 	// c.operator.do competes with c.inputs/c.inputAck
 	if c.inputBuffer.Len() == 0 && c.operator.do() {
+		if !c.IsActive() {
+			// closed in between: give the token back untouched
+			c.operator.done()
+			return c.inputBuffer.Release()
+		}
 		maxSize := c.inputBuffer.calcMaxSize()
 		// Set the maximum value of maxsize equal to mallocMax to prevent GC pressure.
 		if maxSize > mallocMax {
